@@ -19,6 +19,7 @@ import (
 	"verif/harness/abci"
 	"verif/harness/hx"
 
+	l2types "github.com/KiraCore/sekai/x/layer2/types"
 	abcitypes "github.com/cometbft/cometbft/abci/types"
 	tmproto "github.com/cometbft/cometbft/proto/tendermint/types"
 	sdk "github.com/cosmos/cosmos-sdk/types"
@@ -72,6 +73,7 @@ type env struct {
 	valAddr  []string // current validator (operator) address per validator: changes with address rotation
 	live     []int    // account indexes that still hold their funds (not rotated away)
 	nRot     int
+	draft    *l2types.Dapp // the dApp as a proposer saw it some blocks ago
 	shareSet map[int64][2]int64
 	notes    []string
 }
